@@ -152,8 +152,6 @@ def accepted : List Key := [
   ("methods/multidimensional_scaling.hpp", "MultidimensionalScalingImplementation::embed", "$1.first.col(%)", 1),  -- embedding.first.col(i)
   ("methods/multidimensional_scaling.hpp", "MultidimensionalScalingImplementation::embed", "$1.second(%)", 1),  -- embedding.second(i)
   ("neighbors/connected.hpp", "is_connected", "$1[$2[%][%]]", 1),  -- backward[neighbor]
-  ("neighbors/connected.hpp", "is_connected", "$1[%]", 1),  -- neighbors[i]
-  ("neighbors/connected.hpp", "is_connected", "$1[0]", 1),  -- neighbors[0]
   ("neighbors/connected.hpp", "reaches_all_from_first", "$1[$2.top()]", 3),  -- visited[current] | edges[current]
   ("neighbors/connected.hpp", "reaches_all_from_first", "$1[$2[$3.top()][%]]", 1),  -- visited[neighbor]
   ("neighbors/covertree.hpp", "add_height", "$1[$2]", 2),  -- heights[d]
@@ -205,14 +203,12 @@ def accepted : List Key := [
   ("routines/isomap.hpp", "compute_shortest_distances_matrix/4", "$1(%, $2[$3][%])", 2),  -- shortest_distances(k, w)
   ("routines/isomap.hpp", "compute_shortest_distances_matrix/4", "$1[$2[$3][%]]", 5),  -- s[w] | begin[w] | f[w]
   ("routines/isomap.hpp", "compute_shortest_distances_matrix/4", "$1[$2]", 4),  -- s[min_item] | f[min_item] | neighbors[min_item] | begin[min_item]
-  ("routines/isomap.hpp", "compute_shortest_distances_matrix/4", "$1[0]", 1),  -- neighbors[0]
   ("routines/isomap.hpp", "compute_shortest_distances_matrix/5", "$1(%, $2)", 2),  -- shortest_distances(k, min_item)
   ("routines/isomap.hpp", "compute_shortest_distances_matrix/5", "$1(%, $2[$3][%])", 2),  -- shortest_distances(k, w)
   ("routines/isomap.hpp", "compute_shortest_distances_matrix/5", "$1(%, $2[%])", 1),  -- shortest_distances(k, landmarks[k])
   ("routines/isomap.hpp", "compute_shortest_distances_matrix/5", "$1[$2[$3][%]]", 5),  -- s[w] | begin[w] | f[w]
   ("routines/isomap.hpp", "compute_shortest_distances_matrix/5", "$1[$2[%]]", 1),  -- f[landmarks[k]]
   ("routines/isomap.hpp", "compute_shortest_distances_matrix/5", "$1[$2]", 4),  -- s[min_item] | f[min_item] | neighbors[min_item] | begin[min_item]
-  ("routines/isomap.hpp", "compute_shortest_distances_matrix/5", "$1[0]", 1),  -- neighbors[0]
   ("routines/landmarks.hpp", "triangulate", "$1.row($2[%])", 1),  -- embedding.row(landmarks[index_iter])
   ("routines/landmarks.hpp", "triangulate", "$1[$2[%]]", 2),  -- to_process[landmarks[index_iter]] | begin[landmarks[i]]
   ("routines/laplacian_eigenmaps.hpp", "compute_laplacian", "$1($2[% - $3][%])", 1),  -- D(current_neighbors[i])
@@ -220,7 +216,6 @@ def accepted : List Key := [
   ("routines/laplacian_eigenmaps.hpp", "compute_laplacian", "$1.coeffRef(%->col(), %->row())", 1),  -- dynamic_weight_matrix.coeffRef(it->col(), it->row())
   ("routines/laplacian_eigenmaps.hpp", "compute_laplacian", "$1[$2[% - $1][%]]", 1),  -- begin[current_neighbors[i]]
   ("routines/laplacian_eigenmaps.hpp", "compute_laplacian", "$1[% - $2]", 1),  -- neighbors[iter - begin]
-  ("routines/laplacian_eigenmaps.hpp", "compute_laplacian", "$1[0]", 1),  -- neighbors[0]
   ("routines/laplacian_eigenmaps.hpp", "construct_locality_preserving_eigenproblem", "$1[$2.col()]", 1),  -- begin[it.col()]
   ("routines/laplacian_eigenmaps.hpp", "construct_locality_preserving_eigenproblem", "$1[$2.row()]", 1),  -- begin[it.row()]
   ("routines/locally_linear.hpp", "construct_lltsa_eigenproblem", "$1(% - $2)", 1),  -- w_ones(iter - begin)
@@ -231,25 +226,18 @@ def accepted : List Key := [
   ("routines/locally_linear.hpp", "hessian_weight_matrix", "$1(%, %)", 3),  -- gram_matrix(i, j) | gram_matrix(j, i)
   ("routines/locally_linear.hpp", "hessian_weight_matrix", "$1.col(0)", 1),  -- Yi.col(0)
   ("routines/locally_linear.hpp", "hessian_weight_matrix", "$1[$2[%][%]]", 2),  -- begin[current_neighbors[i]] | begin[current_neighbors[j]]
-  ("routines/locally_linear.hpp", "hessian_weight_matrix", "$1[%]", 1),  -- neighbors[index_iter]
-  ("routines/locally_linear.hpp", "hessian_weight_matrix", "$1[0]", 1),  -- neighbors[0]
   ("routines/locally_linear.hpp", "linear_weight_matrix", "$1(%)", 2),  -- weights(i) | weights(j)
   ("routines/locally_linear.hpp", "linear_weight_matrix", "$1[$2[%][%]]", 3),  -- begin[current_neighbors[i]] | begin[current_neighbors[j]]
-  ("routines/locally_linear.hpp", "linear_weight_matrix", "$1[%]", 3),  -- neighbors[index_iter] | weights[i]
-  ("routines/locally_linear.hpp", "linear_weight_matrix", "$1[0]", 1),  -- neighbors[0]
+  ("routines/locally_linear.hpp", "linear_weight_matrix", "$1[%]", 2),  -- weights[i]
   ("routines/locally_linear.hpp", "tangent_weight_matrix", "$1(%, %)", 3),  -- gram_matrix(i, j) | gram_matrix(j, i)
   ("routines/locally_linear.hpp", "tangent_weight_matrix", "$1.col(0)", 1),  -- G.col(0)
   ("routines/locally_linear.hpp", "tangent_weight_matrix", "$1[$2[%][%]]", 2),  -- begin[current_neighbors[i]] | begin[current_neighbors[j]]
-  ("routines/locally_linear.hpp", "tangent_weight_matrix", "$1[%]", 1),  -- neighbors[index_iter]
-  ("routines/locally_linear.hpp", "tangent_weight_matrix", "$1[0]", 1),  -- neighbors[0]
   ("routines/manifold_sculpting.hpp", "angles_matrix_and_neighbors", "$1.col($2[%][%])", 2),  -- data.col(current_neighbors[j])
   ("routines/manifold_sculpting.hpp", "angles_matrix_and_neighbors", "$1.col(($2[$2[%][%]])[%])", 1),  -- data.col(neighbors_of_neighbor[l])
   ("routines/manifold_sculpting.hpp", "angles_matrix_and_neighbors", "$1[$1[%][%]]", 1),  -- neighbors[current_neighbors[j]]
   ("routines/manifold_sculpting.hpp", "angles_matrix_and_neighbors", "$1[%]", 3),  -- neighbors[i] | most_collinear_current_neighbors[j]
-  ("routines/manifold_sculpting.hpp", "angles_matrix_and_neighbors", "$1[0]", 1),  -- neighbors[0]
   ("routines/manifold_sculpting.hpp", "average_neighbor_distance", "$1.col($2[%][%])", 1),  -- data.col(neighbors[i][j])
   ("routines/manifold_sculpting.hpp", "average_neighbor_distance", "$1[%]", 1),  -- neighbors[i]
-  ("routines/manifold_sculpting.hpp", "average_neighbor_distance", "$1[0]", 1),  -- neighbors[0]
   ("routines/manifold_sculpting.hpp", "compute_error_for_point", "$1.angle_neighbors[$2]", 1),  -- error_func_data.angle_neighbors[index]
   ("routines/manifold_sculpting.hpp", "compute_error_for_point", "$1.angle_neighbors[$2][%]", 1),  -- error_func_data.angle_neighbors[index][i]
   ("routines/manifold_sculpting.hpp", "compute_error_for_point", "$1.angles_matrix.coeff($2, $1.angle_neighbors[$2][%])", 1),  -- error_func_data.angles_matrix.coeff(index, neighbor_of_neighbor)
@@ -263,7 +251,6 @@ def accepted : List Key := [
   ("routines/manifold_sculpting.hpp", "manifold_sculpting_embed", "$1[$2.front()]", 2),  -- neighbors[current_point_index]
   ("routines/manifold_sculpting.hpp", "neighbors_distances_matrix", "$1[$2[%][%]]", 1),  -- begin[current_neighbors[j]]
   ("routines/manifold_sculpting.hpp", "neighbors_distances_matrix", "$1[%]", 1),  -- begin[i]
-  ("routines/manifold_sculpting.hpp", "neighbors_distances_matrix", "$1[0]", 1),  -- neighbors[0]
   ("routines/multidimensional_scaling.hpp", "compute_distance_matrix/4", "$1[$2[%]]", 2),  -- begin[landmarks[i_index_iter]] | begin[landmarks[j_index_iter]]
   ("routines/pca.hpp", "compute_centered_kernel_matrix", "$1(% - $2, % - $2)", 2),  -- kernel_matrix(i_iter - begin, j_iter - begin) | kernel_matrix(j_iter - begin, i_iter - begin)
   ("routines/pca.hpp", "project", "$1.row(% - $2)", 1),  -- embedding.row(iter - begin)
@@ -272,7 +259,6 @@ def accepted : List Key := [
   ("routines/spe.hpp", "spe_embedding", "$1[%]", 5),  -- partners[j] | D[j] | Rt[j] | scale[j]
   ("routines/spe.hpp", "spe_embedding", "$1[*$2++]", 1),  -- neighbors[*ind1++]
   ("routines/spe.hpp", "spe_embedding", "$1[*$2++][%]", 1),  -- current_neighbors[kk]
-  ("routines/spe.hpp", "spe_embedding", "$1[0]", 1),  -- neighbors[0]
   ("utils/arpack_wrapper.hpp", "compute/6", "$1[% * $2 + %]", 1),  -- v[i * n + j]
   ("utils/arpack_wrapper.hpp", "compute/6", "$1[0]", 12),  -- eigs_sigma[0] | whch[0] | bmat[0] | iparam[0] | ipntr[0]
   ("utils/arpack_wrapper.hpp", "compute/6", "$1[1]", 9),  -- eigs_sigma[1] | whch[1] | ipntr[1]
